@@ -554,7 +554,15 @@ def _o_cb_fill(w):
     blk = _BLOCK_BIG
     txs = blk.transactions[: w["n"]]
     n = len(txs)
-    pre = sorted({0} | {rng.randrange(n) for _ in range(rng.randrange(0, 4))})
+    mode = w.get("prefill", rng.choice(["none", "coinbase", "subset", "subset0"]))
+    if mode == "none":
+        pre = []                                              # the coinbase too comes from the pool, by short id
+    elif mode == "coinbase":
+        pre = [0]
+    elif mode == "subset":
+        pre = sorted({rng.randrange(n) for _ in range(rng.randrange(1, 5))} - {0})   # arbitrary, index 0 NOT prefilled
+    else:
+        pre = sorted({0} | {rng.randrange(n) for _ in range(rng.randrange(0, 4))})
     keyed = CmpctBlock(blk.header, w["nonce"], [], [], check_validity=False)
     cb = CmpctBlock(blk.header, w["nonce"], [keyed.short_id(t.hash) for i, t in enumerate(txs) if i not in pre],
                     [PrefilledTransaction(i, txs[i]) for i in pre])
@@ -567,7 +575,10 @@ def _o_cb_fill(w):
     part = reconstruct(cb, kept)
     want_missing = [i for i, t in enumerate(txs) if i not in pre and pool.index(t) in withheld]
     if part.missing_indexes != want_missing:
-        return False, f"missing {part.missing_indexes} instead of {want_missing}"
+        return False, (f"prefilled {pre}, pool holds all but {want_missing}: reconstruct leaves {part.missing_indexes} "
+                       f"missing instead of {want_missing} (n={n}, nonce={w['nonce']})")
+    if not withheld and any(t is None for t in part.transactions):
+        return False, f"pool holds every missing transaction yet positions {part.missing_indexes} are not filled"
     filled = part.fill([txs[i] for i in part.missing_indexes], check_validity=False)
     ok = filled.transactions == list(txs) and filled.header == blk.header
     return ok, f"n={n} prefilled={pre} withheld={len(withheld)}"
@@ -1206,5 +1217,7 @@ def run(ctx):
                for _ in range(ctx.n(40, 800))]:
         ctx.check("pow.chain_work", {"seq": [x.hex() for x in q]})
 
-    for k in range(ctx.n(6, 60)):
-        ctx.check("cb.fill", {"seed": rng.getrandbits(32), "n": rng.choice([1, 2, 5, 20, 60]), "nonce": rng.getrandbits(64)})
+    for mode in ("none", "coinbase", "subset", "subset0"):
+        for k in range(ctx.n(4, 40)):
+            ctx.check("cb.fill", {"seed": rng.getrandbits(32), "n": rng.choice([1, 2, 5, 20, 60]), "nonce": rng.getrandbits(64),
+                                  "prefill": mode}, key="cb.reconstruct_fill")
